@@ -884,6 +884,13 @@ def _tarExtractFilter(member, path):
     if os.path.commonpath([full_name, path]) != path:
         raise BuildError(f"Refusing to extract '{name}' from tar file. File is outside of destination directory.")
 
+    # Hard links must point into the destination too. Otherwise a following
+    # member of the same name would write through the link to the outside.
+    if member.islnk():
+        link_target = os.path.realpath(os.path.join(path, member.linkname))
+        if os.path.commonpath([link_target, path]) != path:
+            raise BuildError(f"Refusing to extract hard link '{name}' from tar file. Link target is outside of destination directory.")
+
     return member
 
 def tarfileOpen(*args, **kwargs):
